@@ -52,7 +52,13 @@ def run(verbose=False):
     contract(F, "pick", cases=[dict(x="int"), dict(x="int", flip="bool")], case_names=["plain", "flip"], returns="int",
              per_case={"plain": dict(ensures=["result == x"]), "flip": dict(ensures=["result == (-x if flip else x)"])})
     contract(F, "use_pick_flipped", types=dict(x="int"), returns="int", ensures=["result == -x"])
-    expect = {"find_first_ge": True, "find_first_ge_broken": False, "insert_sorted": True,
+    contract(F, "at", types=dict(xs="list[int]", i="int"), returns="int", modifies=[],
+             raises={"IndexError": dict(when="i >= len(xs) or i < -len(xs)")},
+             ensures=["result == (xs[i] if i >= 0 else xs[len(xs) + i])"])
+    contract(F, "cond_bound", types=dict(n="int"), returns="int", ensures=["result == (n if n > 0 else 0)"],
+             loops={0: dict(types={"i": "int", "d": "int"}, invariant=["0 <= i", "i <= n or n <= 0", "implies(n <= 0, i == 0)", "implies(n > 0, d == 1)"], decreases="n - i")})
+    contract(F, "cond_bound_broken", types=dict(n="int"), returns="int", ensures=["result == 1"])
+    expect = {"at": True, "cond_bound": True, "cond_bound_broken": False, "find_first_ge": True, "find_first_ge_broken": False, "insert_sorted": True,
               "Box.__init__": True, "Box.bump": True, "evens": True, "pick": True, "use_pick_flipped": True}
     ok = True
     for (f, q), c in list(REGISTRY.items()):
